@@ -15,6 +15,7 @@ import (
 	"strconv"
 	"strings"
 	"sync"
+	"sync/atomic"
 	"time"
 
 	"github.com/whoisnian/glb/logger"
@@ -70,11 +71,33 @@ type plan struct {
 	// the isolated replays are computed BEFORE the history runs, on an emptied buffer pool (two GCs): for histories that
 	// are meant to leave buffers of a critical capacity in the process-global pool
 	presolo bool
+	// the shared destination FAILS some of its Write calls (it keeps what it was handed and returns an error): what a
+	// logger writes may not depend on a Write of its parent, a sibling or a descendant having failed before
+	failWrites bool
+}
+
+var errScriptedWrite = errors.New("scripted write failure")
+
+// failingDest hands every chunk to the capture and fails every k-th call (the first one when first is set).
+type failingDest struct {
+	c     *lg.Capture
+	k     int
+	first bool
+	n     atomic.Int64
+}
+
+func (f *failingDest) Write(b []byte) (int, error) {
+	i := int(f.n.Add(1)) - 1
+	f.c.Write(b)
+	if (i == 0 && f.first) || (i > 0 && i%f.k == 0) {
+		return 0, errScriptedWrite
+	}
+	return len(b), nil
 }
 
 func newPlan(k lg.Kind, what string, r *hk.Rng) *plan {
 	return &plan{kind: k, par: []int{-1}, depth: []int{0}, kids: []int{0}, ngor: 1, what: what, r: r,
-		api: r.Chance(45), colorful: r.Chance(25), addSource: r.Chance(40)}
+		api: r.Chance(45), colorful: r.Chance(25), addSource: r.Chance(40), failWrites: r.Chance(12)}
 }
 
 func (p *plan) derive(parent int, group bool, pads []int, gor int) int {
@@ -290,7 +313,12 @@ func execute(e *hk.Env, p *plan) result {
 	for i := range ready {
 		ready[i] = make(chan struct{})
 	}
-	nodes[0] = p.root(&cap)
+	var dest io.Writer = &cap
+	if p.failWrites {
+		dest = &failingDest{c: &cap, k: 2 + len(p.ops)%3, first: len(p.ops)%2 == 0}
+		e.Count("histories_with_failing_writes", 1)
+	}
+	nodes[0] = p.root(dest)
 	close(ready[0])
 	dops := map[int]*dop{}
 	for _, o := range p.ops {
@@ -338,7 +366,7 @@ func execute(e *hk.Env, p *plan) result {
 					}()
 				case o.l != nil && o.l.gor == g:
 					<-ready[o.l.node]
-					if err := p.logNode(nodes[o.l.node], o.l); err != nil {
+					if err := p.logNode(nodes[o.l.node], o.l); err != nil && !(p.failWrites && !strings.HasPrefix(err.Error(), "panic:")) {
 						errMu.Lock()
 						errs = append(errs, err.Error())
 						errMu.Unlock()
@@ -461,7 +489,7 @@ func clipb(b []byte) []byte {
 
 func (p *plan) describe() string {
 	var sb strings.Builder
-	fmt.Fprintf(&sb, "[api=%v,colour=%v,source=%v]", p.api, p.colorful, p.addSource)
+	fmt.Fprintf(&sb, "[api=%v,colour=%v,source=%v,failing-writes=%v]", p.api, p.colorful, p.addSource, p.failWrites)
 	for i, o := range p.ops {
 		if i > 0 {
 			sb.WriteByte(';')
